@@ -44,6 +44,15 @@ type Op struct {
 	Store            *store.Cfg    `json:"store,omitempty"`      // per-op storage behaviour (overrides the case's)
 	ExtraSeed        int64         `json:"extra_seed,omitempty"` // != 0: unrelated, non-matching series are added to the storage
 	Tag              string        `json:"tag,omitempty"`
+	FaultPart        int           `json:"fault_part,omitempty"` // distributed: 1-based partition whose storage gets the faults (0: the central storage)
+	Remote           *RemoteFault  `json:"remote,omitempty"`     // distributed: transport fault of one remote engine
+}
+
+// RemoteFault is a fault of the simulated transport to one remote engine.
+type RemoteFault struct {
+	Part int    `json:"part"`
+	Kind string `json:"kind"` // create-err | exec-err | delay
+	Ms   int64  `json:"ms,omitempty"`
 }
 
 // Case is a complete, self-contained simulated execution: running it is a pure function of this
